@@ -516,7 +516,7 @@ def main():
     chk.assumptions = ['documents carry no CDATA sections or entity references (XPath-normal form)', 'tree targets are compared with the tree the baseline bytes parse to (xml method only)',
                        'stylesheet base URI is the same file path in every form']
     chk.ensure('plain', 'xvdrv')
-    n = 1500 if chk.tier == 'quick' else 150000
+    n = 3000 if chk.tier == 'quick' else 150000
     chk.run_cases('c05', 'case', range(n))
     chk.run_cases('c05', 'doctype_probe', range(8))
     chk.run_cases('c05', 'id_case', range(n // 3))
